@@ -16,6 +16,17 @@ ASSUMPTIONS = [
 ]
 
 
+def converted_untouched(convert, dense, what):
+    """dense_to_sparse(dense) - and the caller's dense frame is afterwards what it was before (values, column labels, index)."""
+    before = dense.copy(deep=True)
+    cols, idx = list(dense.columns), dense.index.copy(deep=True)
+    back = convert(dense)
+    if list(dense.columns) != cols or not D.same_index(dense.index, idx) or not dense.equals(before):
+        raise Violation(f"{what} modified the dense frame it was given", columns_before=[str(c) for c in cols],
+                        columns_after=[str(c) for c in dense.columns])
+    return back
+
+
 @st.composite
 def changepoints_strategy(draw, n):
     if n < 2:
@@ -59,7 +70,7 @@ def static_cases(draw, tier, kind):
     if kind == "subset":
         p = draw(st.sampled_from([1, 2, 3, 4, 5, 6, 8, 3, 65, 80, 130]))  # also more columns than a machine word has bits
         case["p"] = p
-        case["columns"] = draw(st.sampled_from(D.COLUMN_KINDS))
+        case["columns"] = draw(st.sampled_from(C05_COLUMN_KINDS))
         case["icolumns"] = [draw(st.lists(st.integers(0, p - 1), min_size=1, max_size=p, unique=True))
                             for _ in case["intervals"]]
     return case
@@ -70,7 +81,15 @@ def column_labels(kind, p):
 
     if kind == "default":
         return pd.RangeIndex(p)
+    if kind == "multiindex":  # two-level labels, as pd.concat({...}, axis=1), pivot or groupby().agg([...]) produce
+        return pd.MultiIndex.from_tuples([("abc"[j // 2 % 3] + ("" if j < 6 else str(j)), j % 2 + 1) for j in range(p)])
+    if kind == "midnights":  # a wide table with one column per day: the labels are Timestamps at midnight
+        return pd.date_range("2022-01-01", periods=p, freq="D")
     return pd.Index(D.column_labels(kind, p))
+
+
+# (the two extra kinds only here: what they exercise is the naming of the dense columns)
+C05_COLUMN_KINDS = D.COLUMN_KINDS + ["multiindex", "midnights"]
 
 
 def assert_same_closedness(y, back, what):
@@ -105,7 +124,7 @@ def check_static(case):
             raise Violation("dense segment labels differ from the positional labelling of the changepoints",
                             changepoints=cpts, got=dense.iloc[:, 0].tolist(), expected=want.tolist())
         with sut("ChangeDetector.dense_to_sparse"):
-            back = ChangeDetector.dense_to_sparse(dense)
+            back = converted_untouched(ChangeDetector.dense_to_sparse, dense, "ChangeDetector.dense_to_sparse")
         got = [int(v) for v in back["ilocs"].tolist()]
         if got != cpts:
             raise Violation("dense_to_sparse(sparse_to_dense(y)) != y for changepoints", changepoints=cpts, got=got,
@@ -122,7 +141,7 @@ def check_static(case):
             raise Violation("dense anomaly labels differ from the positional labelling of the intervals",
                             intervals=iv, got=dense.iloc[:, 0].tolist(), expected=want.tolist(), index=case["index"])
         with sut("CollectiveAnomalyDetector.dense_to_sparse"):
-            back = CollectiveAnomalyDetector.dense_to_sparse(dense)
+            back = converted_untouched(CollectiveAnomalyDetector.dense_to_sparse, dense, "CollectiveAnomalyDetector.dense_to_sparse")
         assert_same_closedness(y, back, "CollectiveAnomalyDetector")
         _, got = K.sparse_events(back)
         if got != [tuple(x) for x in iv] or back["labels"].tolist() != list(range(1, len(iv) + 1)):
@@ -143,7 +162,7 @@ def check_static(case):
             raise Violation("dense subset labels differ from the positional labelling", anomalies=[list(map(int, (a, b))) + [list(c)] for a, b, c in an],
                             got=dense.to_numpy().tolist(), expected=want.tolist(), columns=list(map(str, dense.columns)))
         with sut("SubsetCollectiveAnomalyDetector.dense_to_sparse"):
-            back = SubsetCollectiveAnomalyDetector.dense_to_sparse(dense)
+            back = converted_untouched(SubsetCollectiveAnomalyDetector.dense_to_sparse, dense, "SubsetCollectiveAnomalyDetector.dense_to_sparse")
         assert_same_closedness(y, back, "SubsetCollectiveAnomalyDetector")
         _, got = K.sparse_events(back)
         got_cols = [sorted(int(c) for c in np.asarray(x).reshape(-1)) for x in back["icolumns"].tolist()]
@@ -178,7 +197,7 @@ def detector_cases(draw, tier, det):
     n = draw(st.integers(n_min, max(n_min, nmax)))
     bw = params.get("bandwidth", params.get("min_segment_length", 1))
     case = {"detector": det, "params": params, "index": draw(D.index_spec(D.INDEX_KINDS + D.REPEAT_INDEX_KINDS)),
-            "columns": draw(st.sampled_from(D.COLUMN_KINDS)),
+            "columns": draw(st.sampled_from(C05_COLUMN_KINDS)),
             # predict(X), then update with a long continuation (penalties / thresholds change), then transform(X)
             "update_between": draw(st.sampled_from([False, False, True]))}
     case["X"], _ = draw(D.structured_matrix(n, p, boundary_positions=(0, bw, n - bw, n - 1)))  # bulk data last (data.py)
@@ -228,7 +247,7 @@ def check_detector(case):
                         events=[list(e) if isinstance(e, tuple) else e for e in events],
                         got=dense.to_numpy()[:, 0].tolist(), expected=want[:, 0].tolist(), index=case["index"])
     with sut(f"{det_name}.dense_to_sparse"):
-        back = det.dense_to_sparse(dense)
+        back = converted_untouched(det.dense_to_sparse, dense, f"{det_name}.dense_to_sparse")
     if kind == "anomalies":
         assert_same_closedness(y, back, det_name)
     _, got = K.sparse_events(back)
